@@ -275,6 +275,18 @@ func c07Alterations() []c07Alteration {
 			m.S = s
 			return true
 		}},
+		{"sig-size-varint", func(m *udm.UCANModel, o *Prin) bool {
+			// the declared size of the raw signature (the varint after the algorithm code)
+			s := append([]byte{}, m.S...)
+			cl := 3
+			if s[0] != 0xed {
+				cl = 4
+			}
+			s[cl] ^= 0x01
+			m.S = s
+			return true
+		}},
+		{"sig-appended", func(m *udm.UCANModel, o *Prin) bool { m.S = append(append([]byte{}, m.S...), 0); return true }},
 		{"sig-code", func(m *udm.UCANModel, o *Prin) bool {
 			// re-tag the signature with the other algorithm's code
 			s := append([]byte{}, m.S...)
